@@ -78,6 +78,7 @@ def build(eng, pattern, folders, opts, sym, names=None):
     layout = dict(folders=list(folders), ncoders=[opts.get("ncoders", 1)] * nf, packsizes=packs,
                   crc_at=opts.get("crc_at", "sub"), omit_numunpack=opts.get("omit_numunpack", True),
                   dummy=opts.get("dummy"), emptyfile_vector=opts.get("emptyfile_vector", False),
+                  omit_substreams=opts.get("omit_substreams", False),
                   coder_ids=[b"\x21", b"\x03\x01\x01"])
     if opts.get("packcrc"):
         layout["packcrc"] = True
@@ -106,6 +107,8 @@ def shapes(tier, max_entries=None):
         ("fff", [1, 2], {"packcrc": True}),
         ("lf", [2], {}),
         ("ff", [2], {"dummy": 200}),          # kDummy whose size needs a two-byte NUMBER
+        ("fdf", [2], {"attrs": "none"}),      # no attribute property at all: kinds come from the empty-stream vectors
+        ("ff", [1, 1], {"crc_at": "folder", "omit_substreams": True}),   # SubStreamsInfo absent
         ("d", [], {}),
         ("", [], {}),
     ]
